@@ -43,8 +43,8 @@ pub struct CurrentWorkingDirectory(pub u32);
 /// interned path of a source file relative to the working directory
 #[derive(Clone, Copy, PartialEq, Eq, Structural)]
 pub struct RelativePathToSourceFile(pub u32);
-#[verifier::external_body]
-pub struct SourceId { p: core::marker::PhantomData<u8> }
+#[derive(Clone, Copy, PartialEq, Eq, Structural)]
+pub struct SourceId(pub u64);
 
 /// relative_path_from_absolute_and_working_directory: an uninterpreted function of its arguments
 pub uninterp spec fn rel_file(cwd: CurrentWorkingDirectory, p: Path) -> RelativePathToSourceFile;
@@ -67,6 +67,14 @@ pub enum DbOp {
     RemoveFile(RelativePathToSourceFile),
     /// remove_iso_literals_from_path(folder string): drop every tracked file inside the folder
     RemoveFolder(Seq<char>),
+    /// db.set(SchemaSource { relative_path, content, .. }): (re)place a schema (extension) source
+    SetSchema(RelativePathToSourceFile, Seq<char>),
+    /// db.remove(source id)
+    RemoveSource(SourceId),
+    /// standard_sources.schema_extension_sources.insert(path, id)
+    RecordExtension(RelativePathToSourceFile, SourceId),
+    /// db.remove_schema_extension(path): forget the extension and drop its source
+    RemoveExtension(RelativePathToSourceFile),
 }
 pub trait CompilationProfile {}
 #[verifier::external_body]
@@ -219,6 +227,198 @@ pub open spec fn inserted(ops: Seq<DbOp>, files: Seq<(RelativePathToSourceFile, 
             SourceEventKind::Remove(path) => r is Ok
                 && final(db).ops() == old(db).ops().push(DbOp::RemoveFile(rel_file(old(db).cwd(), path))),
         }, //@O C20.O-2_file_event_updates_tracked_files
+//@end
+
+// =====================================================================================
+// Schema events (handle_update_schema, read_schema): third mechanism of C20
+// =====================================================================================
+impl Path {
+    /// `a != b` on paths
+    #[verifier::external_body]
+    pub fn differs(&self, other: &Path) -> (r: bool) ensures r == (*self != *other) { unimplemented!() }
+    #[verifier::external_body]
+    pub fn clone(&self) -> (r: Path) ensures r == *self { unimplemented!() }
+}
+//@item rel=crates/common_lang_types/src/absolute_and_relative_path.rs kind=struct name=AbsolutePathAndRelativePath prefix="pub"
+impl AbsolutePathAndRelativePath {
+    pub fn clone(&self) -> (r: Self) ensures r == *self { AbsolutePathAndRelativePath { absolute_path: self.absolute_path.clone(), relative_path: self.relative_path } }
+}
+pub struct CompilerConfig { pub schema: AbsolutePathAndRelativePath, pub schema_extensions: Vec<AbsolutePathAndRelativePath> }
+/// `config.schema_extensions.iter().any(|x| x.absolute_path == *path)`
+pub open spec fn is_extension_path(c: CompilerConfig, p: Path) -> bool {
+    exists|i: int| 0 <= i < c.schema_extensions@.len() && (#[trigger] c.schema_extensions@[i]).absolute_path == p
+}
+#[verifier::external_body]
+pub fn any_extension_has_path(c: &CompilerConfig, p: &Path) -> (r: bool) ensures r == is_extension_path(*c, *p) { unimplemented!() }
+#[verifier::external_body]
+pub struct Span { p: core::marker::PhantomData<u8> }
+//@item rel=crates/common_lang_types/src/location.rs kind=struct name=TextSource prefix="pub"
+//@item rel=crates/isograph_schema/src/isograph_database.rs kind=struct name=SchemaSource prefix="pub"
+/// StandardSources: only the field the schema handler touches (the map of extensions is not
+/// modelled in this unit)
+pub struct StandardSources { pub schema_source_id: SourceId, pub schema_extension_sources: ExtensionMap }
+/// BTreeMap<RelativePathToSourceFile, SourceId<SchemaSource>>: the inserts are what matters here
+#[verifier::external_body]
+pub struct ExtensionMap { p: core::marker::PhantomData<u8> }
+impl ExtensionMap {
+    /// the inserts made through this reference, in order
+    pub uninterp spec fn log(&self) -> Seq<(RelativePathToSourceFile, SourceId)>;
+    #[verifier::external_body]
+    pub fn insert(&mut self, k: RelativePathToSourceFile, v: SourceId) -> (r: Option<SourceId>)
+        ensures final(self).log() == old(self).log().push((k, v))
+    { unimplemented!() }
+}
+impl SourceId {
+    pub uninterp spec fn default_spec() -> SourceId;
+    #[verifier::external_body]
+    pub fn default() -> (r: SourceId) ensures r == SourceId::default_spec() { unimplemented!() }
+    /// the id pico gives a schema source: a function of its key (the relative path)
+    pub uninterp spec fn of_schema(p: RelativePathToSourceFile) -> SourceId;
+}
+impl<P: CompilationProfile> IsographDatabase<P> {
+    pub uninterp spec fn config(&self) -> CompilerConfig;
+    /// the schema source id the database currently has on record
+    pub uninterp spec fn schema_id(&self) -> SourceId;
+    #[verifier::external_body]
+    pub fn get_isograph_config(&self) -> (r: &CompilerConfig) ensures *r == self.config() { unimplemented!() }
+    /// `db.get_standard_sources().untracked()`
+    #[verifier::external_body]
+    pub fn standard_sources(&self) -> (r: &StandardSources) ensures r.schema_source_id == self.schema_id() { unimplemented!() }
+    /// `db.get_standard_sources_mut().tracked()`: the record may be changed through the reference
+    #[verifier::external_body]
+    pub fn standard_sources_mut(&mut self) -> (r: &mut StandardSources)
+        ensures r.schema_source_id == old(self).schema_id(), final(self).schema_id() == final(r).schema_source_id,
+            // inserts into the extension map made through the reference are logged as operations
+            r.schema_extension_sources.log().len() == 0,
+            final(self).ops() == old(self).ops() + final(r).schema_extension_sources.log().map_values(|kv: (RelativePathToSourceFile, SourceId)| DbOp::RecordExtension(kv.0, kv.1)),
+            final(self).cwd() == old(self).cwd(), final(self).config() == old(self).config(),
+    { unimplemented!() }
+    #[verifier::external_body]
+    pub fn remove_schema_extension(&mut self, relative_path: RelativePathToSourceFile) -> (r: Option<SourceId>)
+        ensures final(self).ops() == old(self).ops().push(DbOp::RemoveExtension(relative_path)),
+            final(self).cwd() == old(self).cwd(), final(self).config() == old(self).config(), final(self).schema_id() == old(self).schema_id(),
+    { unimplemented!() }
+    #[verifier::external_body]
+    pub fn set(&mut self, source: SchemaSource) -> (r: SourceId)
+        ensures final(self).ops() == old(self).ops().push(DbOp::SetSchema(source.relative_path, source.content@)),
+            r == SourceId::of_schema(source.relative_path),
+            final(self).cwd() == old(self).cwd(), final(self).config() == old(self).config(), final(self).schema_id() == old(self).schema_id(),
+    { unimplemented!() }
+    #[verifier::external_body]
+    pub fn remove(&mut self, id: SourceId)
+        ensures final(self).ops() == old(self).ops().push(DbOp::RemoveSource(id)),
+            final(self).cwd() == old(self).cwd(), final(self).config() == old(self).config(), final(self).schema_id() == old(self).schema_id(),
+    { unimplemented!() }
+}
+/// read_schema_file: the text of the schema file at a path, or an error
+pub uninterp spec fn schema_file_read(p: Path) -> Result<Seq<char>, LocationFreeDiagnostic>;
+#[verifier::external_body]
+pub fn read_schema_file(path: &PathBuf) -> (r: LocationFreeDiagnosticResult<String>)
+    ensures match r { Ok(v) => schema_file_read(*path) is Ok && v@ == schema_file_read(*path)->Ok_0, Err(e) => schema_file_read(*path) is Err }
+{ unimplemented!() }
+#[verifier::external_body]
+pub fn schema_not_found_diagnostic() -> LocationFreeDiagnostic { unimplemented!() }
+
+//@fn rel=crates/isograph_compiler/src/source_files.rs name=read_schema vis=pub ret=r serves=C20
+//@rw R4
+//@hsub "SourceId<SchemaSource>" => "SourceId"
+//@contract
+    ensures
+        final(db).cwd() == old(db).cwd(), final(db).config() == old(db).config(), final(db).schema_id() == old(db).schema_id(),
+        match schema_file_read(schema_path.absolute_path) {
+            Ok(text) => r is Ok && r->Ok_0 == SourceId::of_schema(schema_path.relative_path)
+                && final(db).ops() == old(db).ops().push(DbOp::SetSchema(schema_path.relative_path, text)),
+            Err(e) => r is Err && final(db).ops() == old(db).ops(),
+        }, //@O C20.O-3_reading_the_schema_replaces_its_source_with_the_file_contents
+//@end
+
+//@fn rel=crates/isograph_compiler/src/source_files.rs name=handle_update_schema vis=pub ret=r serves=C20
+//@rw R4
+//@sub "db\.get_standard_sources_mut\(\)\.tracked\(\)" => "db.standard_sources_mut()" n=*
+//@sub "db\.get_standard_sources\(\)\.untracked\(\)" => "db.standard_sources()" n=*
+//@sub "schema\.absolute_path != \*target_path" => "schema.absolute_path.differs(target_path)" n=1
+//@contract
+    ensures
+        final(db).cwd() == old(db).cwd(), final(db).config() == old(db).config(),
+        match *event_kind {
+            // the schema file was written: its contents are read again
+            SourceEventKind::CreateOrModify(p) => match schema_file_read(old(db).config().schema.absolute_path) {
+                Ok(text) => r is Ok
+                    && final(db).ops() == old(db).ops().push(DbOp::SetSchema(old(db).config().schema.relative_path, text))
+                    && final(db).schema_id() == SourceId::of_schema(old(db).config().schema.relative_path),
+                Err(e) => r is Err && final(db).ops() == old(db).ops() && final(db).schema_id() == old(db).schema_id(),
+            },
+            // a file was renamed ONTO the schema path (an atomic save): the schema has new
+            // contents and must be read again, exactly as for a modification (F-C20b);
+            // renamed to somewhere else: the schema is gone
+            SourceEventKind::Rename((source_path, target_path)) =>
+                if target_path == old(db).config().schema.absolute_path {
+                    match schema_file_read(old(db).config().schema.absolute_path) {
+                        Ok(text) => r is Ok
+                            && final(db).ops() == old(db).ops().push(DbOp::SetSchema(old(db).config().schema.relative_path, text))
+                            && final(db).schema_id() == SourceId::of_schema(old(db).config().schema.relative_path),
+                        Err(e) => r is Err && final(db).ops() == old(db).ops() && final(db).schema_id() == old(db).schema_id(),
+                    }
+                } else {
+                    r is Err && final(db).ops() == old(db).ops().push(DbOp::RemoveSource(old(db).schema_id()))
+                        && final(db).schema_id() == SourceId::default_spec()
+                },
+            // removed: the source is dropped and the compile is told that there is no schema
+            SourceEventKind::Remove(p) => r is Err
+                && final(db).ops() == old(db).ops().push(DbOp::RemoveSource(old(db).schema_id()))
+                && final(db).schema_id() == SourceId::default_spec(),
+        }, //@O C20.O-3_schema_event_rereads_or_drops_the_schema
+//@end
+
+//@fn rel=crates/isograph_config/src/compilation_options.rs name=absolute_and_relative_paths vis=pub ret=r serves=C20
+//@contract
+    ensures r.absolute_path == absolute_path, r.relative_path == rel_file(current_working_directory, absolute_path),
+//@end
+
+//@fn rel=crates/isograph_compiler/src/source_files.rs name=create_or_update_schema_extension vis=pub ret=r serves=C20
+//@rw R4
+//@sub "db\.get_standard_sources_mut\(\)\s*\.tracked\(\)" => "db.standard_sources_mut()" n=*
+//@contract
+    ensures
+        final(db).cwd() == old(db).cwd(), final(db).config() == old(db).config(),
+        match schema_file_read(*path) {
+            // the extension is read again and recorded under its relative path
+            Ok(text) => r is Ok && final(db).ops() == old(db).ops()
+                .push(DbOp::SetSchema(rel_file(old(db).cwd(), *path), text))
+                .push(DbOp::RecordExtension(rel_file(old(db).cwd(), *path), SourceId::of_schema(rel_file(old(db).cwd(), *path)))),
+            Err(e) => r is Err && final(db).ops() == old(db).ops(),
+        }, //@O C20.O-3_changed_schema_extension_is_reread_and_recorded
+//@end
+
+//@fn rel=crates/isograph_compiler/src/source_files.rs name=handle_update_schema_extensions vis=pub ret=r serves=C20
+//@rw R4
+//@sub "db\s*\.get_isograph_config\(\)\s*\.schema_extensions\s*\.iter\(\)\s*\.any\(\|x\| x\.absolute_path == \*target_path\)" => "any_extension_has_path(db.get_isograph_config(), target_path)" n=1
+//@contract
+    ensures
+        final(db).cwd() == old(db).cwd(), final(db).config() == old(db).config(),
+        match *event_kind {
+            SourceEventKind::CreateOrModify(path) => match schema_file_read(path) {
+                Ok(text) => r is Ok && final(db).ops() == old(db).ops()
+                    .push(DbOp::SetSchema(rel_file(old(db).cwd(), path), text))
+                    .push(DbOp::RecordExtension(rel_file(old(db).cwd(), path), SourceId::of_schema(rel_file(old(db).cwd(), path)))),
+                Err(e) => r is Err && final(db).ops() == old(db).ops(),
+            },
+            // renamed onto a configured extension path: that extension is read again;
+            // renamed to anything else: the extension recorded under the old path is dropped
+            SourceEventKind::Rename((source_path, target_path)) =>
+                if is_extension_path(old(db).config(), target_path) {
+                    match schema_file_read(target_path) {
+                        Ok(text) => r is Ok && final(db).ops() == old(db).ops()
+                            .push(DbOp::SetSchema(rel_file(old(db).cwd(), target_path), text))
+                            .push(DbOp::RecordExtension(rel_file(old(db).cwd(), target_path), SourceId::of_schema(rel_file(old(db).cwd(), target_path)))),
+                        Err(e) => r is Err && final(db).ops() == old(db).ops(),
+                    }
+                } else {
+                    r is Ok && final(db).ops() == old(db).ops().push(DbOp::RemoveExtension(rel_file(old(db).cwd(), source_path)))
+                },
+            SourceEventKind::Remove(path) => r is Ok
+                && final(db).ops() == old(db).ops().push(DbOp::RemoveExtension(rel_file(old(db).cwd(), path))),
+        }, //@O C20.O-3_schema_extension_event_rereads_or_drops_the_extension
 //@end
 
 } // verus!
